@@ -31,9 +31,10 @@ func NewPhaseTime32(x time.Time, units time.Duration) PhaseTime32 {
 		// odd
 		y |= 1 << 31
 	}
+	// the low 31 bits count units since the epoch: the period is units * 2^31
 	distNanos := (x.UnixNano() - epoch)
-	distMillis := distNanos / 1e6
-	y |= PhaseTime32(0x7FFFFFFF & distMillis)
+	distUnits := distNanos / int64(units)
+	y |= PhaseTime32(0x7FFFFFFF & distUnits)
 	return y
 }
 
@@ -46,8 +47,8 @@ func (pt PhaseTime32) UTC(now time.Time, units time.Duration) time.Time {
 	} else {
 		epoch = lastEvenEpoch(now, int64(period))
 	}
-	distMillis := int64(pt & 0x7FFFFFFF)
-	distNanos := distMillis * 1e6
+	distUnits := int64(pt & 0x7FFFFFFF)
+	distNanos := distUnits * int64(units)
 	return time.Unix(0, epoch+distNanos)
 }
 
